@@ -6,56 +6,56 @@ import BctVerif.Lemmas.ClusterBound
 namespace Bct.Cluster
 open Finset Bct
 
-variable {n : ℕ}
+variable {n : ℕ} {K : Type} [Field K] [LinearOrder K] [IsStrictOrderedRing K]
 
-theorem perNode_zero (d : ℚ) : perNode 0 d = some 0 := by simp [perNode]
-theorem perNode_of_ne {c d : ℚ} (hc : c ≠ 0) (hd : d ≠ 0) : perNode c d = some (c / d) := by
-  simp [perNode, hc, hd]
-/-- whenever a nonzero numerator forces a nonzero denominator, `perNode` is a genuine quotient -/
-theorem perNode_eq_div {c d : ℚ} (h : c ≠ 0 → d ≠ 0) : perNode c d = some (c / d) := by
+theorem perNode_zero (d : K) : perNodeK 0 d = some 0 := by simp [perNodeK]
+theorem perNode_of_ne {c d : K} (hc : c ≠ 0) (hd : d ≠ 0) : perNodeK c d = some (c / d) := by
+  simp [perNodeK, hc, hd]
+/-- whenever a nonzero numerator forces a nonzero denominator, `perNodeK` is a genuine quotient -/
+theorem perNode_eq_div {c d : K} (h : c ≠ 0 → d ≠ 0) : perNodeK c d = some (c / d) := by
   by_cases hc : c = 0
-  · simp [perNode, hc]
+  · simp [perNodeK, hc]
   · exact perNode_of_ne hc (h hc)
-theorem perNode_scale {c d t : ℚ} (ht : t ≠ 0) : perNode (t * c) (t * d) = perNode c d := by
+theorem perNode_scale {c d t : K} (ht : t ≠ 0) : perNodeK (t * c) (t * d) = perNodeK c d := by
   by_cases hc : c = 0
-  · simp [perNode, hc]
+  · simp [perNodeK, hc]
   · by_cases hd : d = 0
-    · simp [perNode, hc, hd, ht]
+    · simp [perNodeK, hc, hd, ht]
     · rw [perNode_of_ne (mul_ne_zero ht hc) (mul_ne_zero ht hd), perNode_of_ne hc hd, mul_div_mul_left _ _ ht]
-theorem gdiv_scale {c d t : ℚ} (ht : t ≠ 0) : gdiv (t * c) (t * d) = gdiv c d := by
+theorem gdiv_scale {c d t : K} (ht : t ≠ 0) : gdivK (t * c) (t * d) = gdivK c d := by
   by_cases hd : d = 0
-  · simp [gdiv, hd]
-  · simp [gdiv, hd, ht, mul_div_mul_left _ _ ht]
+  · simp [gdivK, hd]
+  · simp [gdivK, hd, ht, mul_div_mul_left _ _ ht]
 
-theorem isCbrt_zero_iff {R W : AMat ℚ n} (h : IsCbrt R W) (i j : Fin n) : R.get i j = 0 ↔ W.get i j = 0 := by
+theorem isCbrt_zero_iff {R W : AMat K n} (h : IsCbrt R W) (i j : Fin n) : R.get i j = 0 ↔ W.get i j = 0 := by
   rw [← h i j]; simp
-theorem isCbrt_emptyDiag {R W : AMat ℚ n} (h : IsCbrt R W) (hd : EmptyDiag W) : EmptyDiag R :=
+theorem isCbrt_emptyDiag {R W : AMat K n} (h : IsCbrt R W) (hd : EmptyDiag W) : EmptyDiag R :=
   fun i => (isCbrt_zero_iff h i i).mpr (hd i)
-theorem cube_inj {x y : ℚ} (h : x ^ 3 = y ^ 3) : x = y :=
+theorem cube_inj {x y : K} (h : x ^ 3 = y ^ 3) : x = y :=
   (Odd.strictMono_pow (by decide : Odd 3)).injective h
-theorem isCbrt_symm {R W : AMat ℚ n} (h : IsCbrt R W) (hs : Symm W) : Symm R :=
+theorem isCbrt_symm {R W : AMat K n} (h : IsCbrt R W) (hs : Symm W) : Symm R :=
   fun i j => cube_inj (by rw [h i j, h j i, hs i j])
-theorem isCbrt_of_bin {W : AMat ℚ n} (h : Bin W) : IsCbrt W W := fun i j => by
+theorem isCbrt_of_bin {W : AMat K n} (h : Bin W) : IsCbrt W W := fun i j => by
   rcases h i j with h | h <;> simp [h]
-theorem isCbrt_nonneg {R W : AMat ℚ n} (h : IsCbrt R W) (i j : Fin n) (hw : 0 ≤ W.get i j) : 0 ≤ R.get i j := by
+theorem isCbrt_nonneg {R W : AMat K n} (h : IsCbrt R W) (i j : Fin n) (hw : 0 ≤ W.get i j) : 0 ≤ R.get i j := by
   by_contra hneg
   have : R.get i j ^ 3 < 0 := Odd.pow_neg (by decide) (not_le.mp hneg)
   rw [h i j] at this; linarith
-theorem isCbrt_le_one {R W : AMat ℚ n} (h : IsCbrt R W) (i j : Fin n) (hw : W.get i j ≤ 1) : R.get i j ≤ 1 := by
+theorem isCbrt_le_one {R W : AMat K n} (h : IsCbrt R W) (i j : Fin n) (hw : W.get i j ≤ 1) : R.get i j ≤ 1 := by
   by_contra hgt
-  have h1 : (1:ℚ) < R.get i j := not_le.mp hgt
-  have : (1:ℚ) < R.get i j ^ 3 := one_lt_pow₀ h1 (by norm_num)
+  have h1 : (1:K) < R.get i j := not_le.mp hgt
+  have : (1:K) < R.get i j ^ 3 := one_lt_pow₀ h1 (by norm_num)
   rw [h i j] at this; linarith
 /-- a root in [0,1] is dominated by the adjacency indicator -/
-theorem isCbrt_le_ind {R W : AMat ℚ n} (h : IsCbrt R W) (hw : In01 W) (i j : Fin n) :
-    R.get i j ≤ ind (W.get i j) := by
+theorem isCbrt_le_ind {R W : AMat K n} (h : IsCbrt R W) (hw : In01 W) (i j : Fin n) :
+    R.get i j ≤ indK (W.get i j) := by
   by_cases h0 : W.get i j = 0
-  · rw [(isCbrt_zero_iff h i j).mpr h0, h0]; simp [ind]
-  · simpa [ind, h0] using isCbrt_le_one h i j (hw i j).2
+  · rw [(isCbrt_zero_iff h i j).mpr h0, h0]; simp [indK]
+  · simpa [indK, h0] using isCbrt_le_one h i j (hw i j).2
 
 /-! ### a nonzero triangle sum exhibits two distinct neighbours -/
 
-theorem triS_ne_zero {R : AMat ℚ n} (hd : EmptyDiag R) {i : Fin n} (h : triS R i ≠ 0) :
+theorem triS_ne_zero {R : AMat K n} (hd : EmptyDiag R) {i : Fin n} (h : triS R i ≠ 0) :
     ∃ j k, j ≠ k ∧ R.get i j + R.get j i ≠ 0 ∧ R.get j k + R.get k j ≠ 0 ∧ R.get k i + R.get i k ≠ 0 := by
   obtain ⟨j, -, hj⟩ := Finset.exists_ne_zero_of_sum_ne_zero h
   obtain ⟨k, -, hk⟩ := Finset.exists_ne_zero_of_sum_ne_zero hj
@@ -66,7 +66,7 @@ theorem triS_ne_zero {R : AMat ℚ n} (hd : EmptyDiag R) {i : Fin n} (h : triS R
   rintro rfl
   exact h2 (by simp [hd j])
 
-theorem tri_ne_zero {R : AMat ℚ n} (hd : EmptyDiag R) {i : Fin n} (h : tri R i ≠ 0) :
+theorem tri_ne_zero {R : AMat K n} (hd : EmptyDiag R) {i : Fin n} (h : tri R i ≠ 0) :
     ∃ j k, j ≠ k ∧ R.get i j ≠ 0 ∧ R.get j k ≠ 0 ∧ R.get k i ≠ 0 := by
   obtain ⟨j, -, hj⟩ := Finset.exists_ne_zero_of_sum_ne_zero h
   obtain ⟨k, -, hk⟩ := Finset.exists_ne_zero_of_sum_ne_zero hj
@@ -77,46 +77,46 @@ theorem tri_ne_zero {R : AMat ℚ n} (hd : EmptyDiag R) {i : Fin n} (h : tri R i
   rintro rfl
   exact h2 (hd j)
 
-theorem pairsS_eq_pairs {A : AMat ℚ n} (hA : Bin A) (i : Fin n) :
+theorem pairsS_eq_pairs {A : AMat K n} (hA : Bin A) (i : Fin n) :
     pairsS A i = ∑ j, ∑ k, (if j = k then 0 else (A.get i j + A.get j i) * (A.get i k + A.get k i)) :=
   pairs_identity (fun x y => A.get x y) hA i
 
-theorem bin_nonneg {A : AMat ℚ n} (hA : Bin A) (i j : Fin n) : 0 ≤ A.get i j := by
+theorem bin_nonneg {A : AMat K n} (hA : Bin A) (i j : Fin n) : 0 ≤ A.get i j := by
   rcases hA i j with h | h <;> simp [h]
-theorem bin_le_one {A : AMat ℚ n} (hA : Bin A) (i j : Fin n) : A.get i j ≤ 1 := by
+theorem bin_le_one {A : AMat K n} (hA : Bin A) (i j : Fin n) : A.get i j ≤ 1 := by
   rcases hA i j with h | h <;> simp [h]
-theorem bin_sq {A : AMat ℚ n} (hA : Bin A) (i j : Fin n) : A.get i j * A.get i j = A.get i j := by
+theorem bin_sq {A : AMat K n} (hA : Bin A) (i j : Fin n) : A.get i j * A.get i j = A.get i j := by
   rcases hA i j with h | h <;> simp [h]
-theorem bin_one_le {A : AMat ℚ n} (hA : Bin A) {i j : Fin n} (h : A.get i j ≠ 0) : 1 ≤ A.get i j := by
+theorem bin_one_le {A : AMat K n} (hA : Bin A) {i j : Fin n} (h : A.get i j ≠ 0) : 1 ≤ A.get i j := by
   rcases hA i j with h' | h' <;> simp_all
 
-theorem pairsS_pos {A : AMat ℚ n} (hA : Bin A) {i j k : Fin n} (hjk : j ≠ k)
+theorem pairsS_pos {A : AMat K n} (hA : Bin A) {i j k : Fin n} (hjk : j ≠ k)
     (hj : 1 ≤ A.get i j + A.get j i) (hk : 1 ≤ A.get i k + A.get k i) : 0 < pairsS A i := by
   rw [pairsS_eq_pairs hA]
-  have hnn : ∀ x y, 0 ≤ (if x = y then (0:ℚ) else (A.get i x + A.get x i) * (A.get i y + A.get y i)) := by
+  have hnn : ∀ x y, 0 ≤ (if x = y then (0:K) else (A.get i x + A.get x i) * (A.get i y + A.get y i)) := by
     intro x y; split_ifs
     · exact le_rfl
     · exact mul_nonneg (add_nonneg (bin_nonneg hA _ _) (bin_nonneg hA _ _)) (add_nonneg (bin_nonneg hA _ _) (bin_nonneg hA _ _))
-  have h1 : ∑ k', (if j = k' then (0:ℚ) else (A.get i j + A.get j i) * (A.get i k' + A.get k' i))
-      ≤ ∑ j', ∑ k', (if j' = k' then (0:ℚ) else (A.get i j' + A.get j' i) * (A.get i k' + A.get k' i)) :=
-    Finset.single_le_sum (f := fun j' => ∑ k', (if j' = k' then (0:ℚ) else (A.get i j' + A.get j' i) * (A.get i k' + A.get k' i)))
+  have h1 : ∑ k', (if j = k' then (0:K) else (A.get i j + A.get j i) * (A.get i k' + A.get k' i))
+      ≤ ∑ j', ∑ k', (if j' = k' then (0:K) else (A.get i j' + A.get j' i) * (A.get i k' + A.get k' i)) :=
+    Finset.single_le_sum (f := fun j' => ∑ k', (if j' = k' then (0:K) else (A.get i j' + A.get j' i) * (A.get i k' + A.get k' i)))
       (fun x _ => Finset.sum_nonneg (fun y _ => hnn x y)) (Finset.mem_univ j)
-  have h2 : (if j = k then (0:ℚ) else (A.get i j + A.get j i) * (A.get i k + A.get k i))
-      ≤ ∑ k', (if j = k' then (0:ℚ) else (A.get i j + A.get j i) * (A.get i k' + A.get k' i)) :=
-    Finset.single_le_sum (f := fun k' => (if j = k' then (0:ℚ) else (A.get i j + A.get j i) * (A.get i k' + A.get k' i)))
+  have h2 : (if j = k then (0:K) else (A.get i j + A.get j i) * (A.get i k + A.get k i))
+      ≤ ∑ k', (if j = k' then (0:K) else (A.get i j + A.get j i) * (A.get i k' + A.get k' i)) :=
+    Finset.single_le_sum (f := fun k' => (if j = k' then (0:K) else (A.get i j + A.get j i) * (A.get i k' + A.get k' i)))
       (fun y _ => hnn j y) (Finset.mem_univ k)
   rw [if_neg hjk] at h2
   have : 1 ≤ (A.get i j + A.get j i) * (A.get i k + A.get k i) := by nlinarith
   linarith
 
-theorem deg_ge_two {W : AMat ℚ n} {i j k : Fin n} (hjk : j ≠ k) (hj : W.get i j ≠ 0) (hk : W.get i k ≠ 0) :
+theorem deg_ge_two {W : AMat K n} {i j k : Fin n} (hjk : j ≠ k) (hj : W.get i j ≠ 0) (hk : W.get i k ≠ 0) :
     2 ≤ deg W i :=
-  two_le_sum (fun x => ind (W.get i x)) (fun x => ind_nonneg _) hjk (by simp [ind, hj]) (by simp [ind, hk])
+  two_le_sum (fun x => indK (W.get i x)) (fun x => ind_nonneg _) hjk (by simp [indK, hj]) (by simp [indK, hk])
 
-theorem deg_pairs_pos {W : AMat ℚ n} {i : Fin n} (h : 2 ≤ deg W i) : 0 < deg W i * (deg W i - 1) := by
+theorem deg_pairs_pos {W : AMat K n} {i : Fin n} (h : 2 ≤ deg W i) : 0 < deg W i * (deg W i - 1) := by
   nlinarith
 
-theorem deg_of_bin {A : AMat ℚ n} (hA : Bin A) (i : Fin n) : deg A i = ∑ j, A.get i j :=
+theorem deg_of_bin {A : AMat K n} (hA : Bin A) (i : Fin n) : deg A i = ∑ j, A.get i j :=
   Finset.sum_congr rfl (fun j _ => ind_of_bin (hA i j))
 
 end Bct.Cluster
